@@ -112,7 +112,9 @@ class Model:
             else:
                 gp = self.nodes[name].parents[0]
                 for c in self.children(name):
-                    self.nodes[c].parents = [gp if p == name else p for p in self.nodes[c].parents]
+                    ps = [gp if p == name else p for p in self.nodes[c].parents]
+                    # a mux that already listed the grandparent keeps one link to it (first position wins)
+                    self.nodes[c].parents = [p for j, p in enumerate(ps) if p not in ps[:j]]
                 self.nodes.pop(name)
         elif k == "set_sys_phases":
             self.phases = copy.deepcopy(op["phases"])
